@@ -246,6 +246,8 @@ parseinit(struct scope *s, struct type *t)
 	p.sub->iscur = false;
 	p.init = NULL;
 	p.last = &p.init;
+	if (t->kind == TYPEFUNC)
+		error(&tok.loc, "initializer specified for function type");
 	if (t->incomplete && t->kind != TYPEARRAY)
 		error(&tok.loc, "initializer specified for incomplete type");
 	if (t->kind == TYPEARRAY && !t->incomplete && t->size == 0 && t->prop & PROPVM)
